@@ -239,7 +239,7 @@ def C01(run):
                 '(ParserTotal: a verdict for every soup text, top-level loop bounded); non-trivial = non-blank text')
     run.assumptions += ['release-mode undefined behaviour without a symptom is not observable; the model checks the slice preconditions instead']
     quick = run.tier == 'quick'
-    for c in (['core3', 'uni3', 'kw4', 'soupfull2', 'souptiny3', 'souplong4'] if quick else ['core4', 'uni4', 'kw5', 'multi5', 'soupfull3', 'soupcore4', 'souptiny4', 'souplong5']):
+    for c in (['core3', 'uni3', 'kw4', 'ws4', 'soupfull2', 'souptiny3', 'souplong4'] if quick else ['core4', 'uni4', 'kw5', 'multi5', 'soupfull3', 'soupcore4', 'souptiny4', 'souplong5']):
         tlc_replay(run, 'total-' + c, 'MC_Lex.tla', 'MC_Lex_%s.cfg' % c, 'total', profiles=('debug', 'release'), timeout_ms=5000)
     # totality only: what the verdict is belongs to C02 / C13
     parser_soup(run, ['full2', 'tiny3', 'lines3', 'else5'] if quick else ['full3', 'core4', 'tiny4', 'stmt5', 'lines4', 'else6'], profiles=('debug', 'release'), family='total')
@@ -345,6 +345,10 @@ def C04(run):
     interp(run, 'CF')
     # which statements belong to which branch / loop is decided by the parser: block-structure programs as TEXT through the real front end
     grammar(run, 'cf', family='e2e', parts='run')
+    # "an error stops execution at that statement, with everything printed before it preserved" - also for the user of the tool: the
+    # programs of the CLI corpus that end in a run-time error, through the built binary (CliTrace.tla)
+    run.rule += '; programs that print and then fail are also run through the built binary (the output before the error must arrive)'
+    clitrace(run, (('cli', 1000),), only=lambda l: '\\"st\\":\\"err\\"' in l)
     # "from any depth of nested ifs": the depth boundary family (40 / 150 nested ifs, else-if chains, loops, definitions) with the full
     # comparison of the run: a deeply nested program is a program like any other
     deep(run, parts='run')
@@ -358,6 +362,9 @@ def C05(run):
     run.rule += TRACE_NOTE
     interp(run, 'FN')
     interp(run, 'CF') if run.tier == 'thorough' else None
+    # which arguments belong to which call is decided by the parser: the same programs as text through the real front end
+    run.rule += '; the FN / PR programs also as text (family e2e, the run compared)'
+    grammar(run, 'e2e', family='e2e', parts='run')
     interptrace(run)
 
 
